@@ -519,8 +519,14 @@ Fixpoint dataref_access (acc : list node) (ref : value) : M value :=
       end
   end.
 
-(* evalPrint checks each directive's name and arity before evaluating its arguments *)
-Fixpoint print_dirs (l : list node) : M (list (bstr * list darg)) :=
+(* evalPrint's loop over the directives of a print, one directive at a time: its name and arity are checked, its
+   arguments evaluated, and it is APPLIED to the result so far -- before the next directive is looked at (a failing
+   application is reported with s.node where the evaluation of ITS arguments left it, and the arguments of later
+   directives are never evaluated).  [v] is the result so far (the library directives take its String() image and
+   return a string).  The application is checked here through [print_writes] with autoescape off (mode 2: the Write
+   calls are then exactly [directive's result]); the list returned is handed to [print_writes] again by the caller,
+   which recomputes the same applications (they are pure) and adds the obligatory directives and the escaping. *)
+Fixpoint print_dirs (l : list node) (v : value) : M (list (bstr * list darg)) :=
   match l with
   | [] => ret (map (fun nm => (nm, @nil darg)) (c_oblig cf))
   | NDirective _ name args :: r =>
@@ -528,7 +534,11 @@ Fixpoint print_dirs (l : list node) : M (list (bstr * list darg)) :=
       | None => fail e_nodirective
       | Some (arglens, _) =>
           if negb (check_num_args arglens (length args)) then fail e_arity
-          else vs <-- eval_list args ;;; rest <-- print_dirs r ;;; ret ((name, map darg_of vs) :: rest)
+          else vs <-- eval_list args ;;;
+               s <-- lift (value_string v) ;;;
+               ws <-- lift (print_writes 2 [(name, map darg_of vs)] s) ;;;
+               rest <-- print_dirs r (VStr (concat_b ws)) ;;;
+               ret ((name, map darg_of vs) :: rest)
       end
   | _ :: _ => fail e_unknown
   end.
@@ -680,7 +690,7 @@ Definition walk_node (n : node) : M value :=
       match v with
       | VUndef => fail e_undefined
       | _ =>
-          ds <-- print_dirs dirs ;;;
+          ds <-- print_dirs dirs v ;;;
           s <-- lift (value_string v) ;;;
           st <-- get ;;;
           ws <-- lift (print_writes (mode st) ds s) ;;;
